@@ -42,6 +42,8 @@ type RecTransport struct {
 	Handler datatransfer.EventsHandler
 	// Fail decides the error of a call (nil = ok).
 	Fail func(c TCall) error
+	// HoldOpen, when non-nil, parks every OpenChannel (after recording it) until it receives / is closed.
+	HoldOpen chan struct{}
 	// OnResume is called when a channel is resumed (the data flows again from here on).
 	OnResume func(chid datatransfer.ChannelID)
 }
@@ -61,7 +63,16 @@ func (t *RecTransport) rec(c TCall) error {
 }
 
 func (t *RecTransport) OpenChannel(ctx context.Context, dataSender peer.ID, chid datatransfer.ChannelID, root ipld.Link, stor datamodel.Node, channel datatransfer.ChannelState, msg datatransfer.Message) error {
-	return t.rec(TCall{Op: "open", Chid: chid, Peer: dataSender, Msg: msg, Channel: channel, Root: root.String()})
+	err := t.rec(TCall{Op: "open", Chid: chid, Peer: dataSender, Msg: msg, Channel: channel, Root: root.String()})
+	if hold := t.HoldOpen; hold != nil {
+		// the request is on the wire; the call returns when the harness says so (the counterparty may answer first)
+		select {
+		case <-hold:
+		case <-ctx.Done():
+			return ctx.Err()
+		}
+	}
+	return err
 }
 func (t *RecTransport) CloseChannel(ctx context.Context, chid datatransfer.ChannelID) error {
 	return t.rec(TCall{Op: "close", Chid: chid})
@@ -76,6 +87,9 @@ func (t *RecTransport) SetEventHandler(events datatransfer.EventsHandler) error 
 	return nil
 }
 func (t *RecTransport) CleanupChannel(chid datatransfer.ChannelID) {
+	// releasing transport resources takes time: a scheduling point for thread-level cells (the channel's state
+	// machine is busy in its cleanup handler while a goroutine is parked here)
+	core.Point("stmt", "transport:cleanup")
 	_ = t.rec(TCall{Op: "cleanup", Chid: chid})
 }
 func (t *RecTransport) Shutdown(ctx context.Context) error { return t.rec(TCall{Op: "shutdown"}) }
